@@ -23,7 +23,7 @@ PROPS = {
     },
     'C03': {
         'correspondence': CORR_L1,
-        'coq': ['theories/Props/C03.vo', 'theories/Inst/C03_now.vo', 'theories/L1h/PropsC03once.vo', 'theories/L1h/Inst.vo', 'theories/L1b/PropsLbound.vo', 'theories/L1b/Inst.vo', 'theories/Inst/Fut_now.vo', 'theories/Inst/Jobs_now.vo', 'theories/L1n/PropsL1n.vo', 'theories/L1n/Inst.vo'],
+        'coq': ['theories/Props/C03.vo', 'theories/Inst/C03_now.vo', 'theories/L1h/PropsC03once.vo', 'theories/L1h/Inst.vo', 'theories/L1b/PropsLbound.vo', 'theories/L1b/Inst.vo', 'theories/Inst/Fut_now.vo', 'theories/Inst/Jobs_now.vo', 'theories/L1n/PropsL1n.vo', 'theories/L1n/Inst.vo', 'theories/L1n/PropsLboundN.vo'],
         'profiles': [prof('pool', (80, 20), (2000, 80)), prof('core', (40, 10), (1000, 40), extra=['--min-pool', '1']), prof('fut', (50, 15), (1000, 60), extra=['--min-pool', '1']), prof('progs:fut_extra.progs', (0, 60), (0, 1500)), prof('progs:susp_extra.progs', (0, 60), (0, 1500)), prof('progs:f6_waiter_takeover.progs', (0, 60), (0, 1500))],
         'monitors': ['C03'], 'liveness': True, 'panics': False,
         'trusted_base': L1_TRUST,
@@ -39,7 +39,7 @@ PROPS = {
     },
     'C04': {
         'correspondence': CORR_L1,
-        'coq': ['theories/Props/C04.vo', 'theories/Inst/C04_now.vo', 'theories/L1h/PropsC04.vo', 'theories/L1h/Inst.vo', 'theories/L1b/PropsLbound.vo', 'theories/L1b/Inst.vo', 'theories/L1z/PropsC04zero.vo', 'theories/L1z/Inst.vo', 'theories/Inst/Fut_now.vo', 'theories/L2/PropsC06.vo', 'theories/L2/Inst.vo', 'theories/Inst/Jobs_now.vo', 'theories/Inst/Wrapper_now.vo', 'theories/L2/PropsC04.vo', 'theories/L1n/PropsL1n.vo', 'theories/L1n/Inst.vo'],
+        'coq': ['theories/Props/C04.vo', 'theories/Inst/C04_now.vo', 'theories/L1h/PropsC04.vo', 'theories/L1h/Inst.vo', 'theories/L1b/PropsLbound.vo', 'theories/L1b/Inst.vo', 'theories/L1z/PropsC04zero.vo', 'theories/L1z/Inst.vo', 'theories/Inst/Fut_now.vo', 'theories/L2/PropsC06.vo', 'theories/L2/Inst.vo', 'theories/Inst/Jobs_now.vo', 'theories/Inst/Wrapper_now.vo', 'theories/L2/PropsC04.vo', 'theories/L1n/PropsL1n.vo', 'theories/L1n/Inst.vo', 'theories/L1n/PropsLboundN.vo'],
         'profiles': [prof('sync', (80, 20), (2000, 80)), prof('core', (40, 10), (800, 40)), prof('pool', (30, 10), (600, 40)), prof('fut', (40, 15), (800, 60), extra=['--max-pool', '1']), prof('progs:fut_extra.progs', (0, 60), (0, 1500)), prof('progs:susp_extra.progs', (0, 60), (0, 1500)), prof('progs:f6_waiter_takeover.progs', (0, 60), (0, 1500))],
         'monitors': ['C04'], 'liveness': True, 'panics': True,
         'trusted_base': L1_TRUST,
@@ -47,7 +47,7 @@ PROPS = {
     },
     'C05': {
         'correspondence': CORR_L1,
-        'coq': ['theories/L1h/PropsC05.vo', 'theories/L1h/Inst.vo', 'theories/Inst/Fut_now.vo', 'theories/Inst/Wrapper_now.vo'],
+        'coq': ['theories/L1h/PropsC05.vo', 'theories/L1h/Inst.vo', 'theories/Inst/Fut_now.vo', 'theories/Inst/Wrapper_now.vo', 'theories/L1n/PropsL1n.vo', 'theories/L1n/Inst.vo'],
         'profiles': [prof('drop', (80, 20), (2000, 80)), prof('core', (30, 10), (600, 40)), prof('pipein', (40, 15), (600, 60), extra=['--max-steps', '30000']), prof('pipedrop', (30, 10), (400, 40), extra=['--max-steps', '30000']), prof('sweep:drop_sweep.progs', (0, 2), (0, 12), extra=['--max-steps', '30000']), prof('progs:fut_extra.progs', (0, 60), (0, 1500))],
         'monitors': ['C05'], 'liveness': True, 'panics': True,
         'trusted_base': L1_TRUST + ['drop is modelled as what the code does: a final sync whose closure frees the value (fact drop_is_sync_free)'],
